@@ -71,7 +71,11 @@ impl<T> Sender<T> {
     /// This prevents any further messages from being sent on the channel, by any sender, while
     /// still enabling the receiver to drain messages that are already buffered.
     pub fn close(&mut self) {
-        self.shared.borrow_mut().has_receiver = false;
+        let mut shared = self.shared.borrow_mut();
+        shared.has_receiver = false;
+
+        // Wake up receiver as its stream has ended
+        shared.blocked_recv.wake();
     }
 }
 
@@ -151,8 +155,9 @@ impl<T> Stream for Receiver<T> {
     fn poll_next(self: Pin<&mut Self>, cx: &mut Context<'_>) -> Poll<Option<Self::Item>> {
         let mut shared = self.shared.borrow_mut();
 
-        if Rc::strong_count(&self.shared) == 1 {
-            // All senders have been dropped, so drain the buffer and end the stream.
+        if Rc::strong_count(&self.shared) == 1 || !shared.has_receiver {
+            // All senders have been dropped or the channel has been closed, so drain the buffer and
+            // end the stream.
             return Poll::Ready(shared.buffer.pop_front());
         }
 
